@@ -576,6 +576,11 @@ def fam_e(ctx):
             '1e9223372036854775807', '1e-9223372036854775808', '1e18446744073709551616', '0e18446744073709551616', '1.5e2147483639', '15e2147483646', '0.0000000001e2147483647']
     for s in lits:
         yield s.encode()
+    # exponents AT the i32 boundaries combined with mantissa exponents of either sign (integer digits beyond 20, fraction digits):
+    # the sum of the written exponent and the mantissa's contribution must saturate, not wrap
+    for x in gen.number_literals(ctx.rng, 0):
+        if b'e' in x.lower() and any(str(e_).encode() in x for e_ in gen.I32_EDGES):
+            yield x
 
 def bits_to_float(b):
     return struct.unpack('<d', struct.pack('<Q', b))[0]
